@@ -57,12 +57,14 @@ Lemma Inv_write s m g a v :
   Inv s (mkMem (m_pages m) (m_max m) (wr1 (m_data m) a v))
       (mkGhost (g_live g) ((a, v mod 256) :: g_shadow g) (a :: g_written g) (g_dead g) (g_void g) (m_pages m)).
 Proof.
-  intros [i1 iw i2 i3 i4 i5] Hin. constructor; cbn [m_pages m_max m_data g_shadow g_dead g_pages]; auto.
+  intros [i1 iw il1 il2 i2 i3 i4 i5] Hin. constructor; cbn [m_pages m_max m_data g_shadow g_dead g_pages]; auto.
   - intros x w. cbn [g_shadow m_data]. rewrite lookup_cons. unfold wr1. rewrite (N.eqb_sym a x).
     destruct (x =? a); [intros [= E]; exact E|]. apply i1.
   - intros x w. cbn [g_shadow g_written]. rewrite lookup_cons. destruct (a =? x) eqn:E.
     + apply N.eqb_eq in E. intros _. now left.
     + intros H. right. now apply (iw x w).
+  - intros x [<-|Hx]; [|now apply il1]. apply in_live_spec in Hin as (p & sz & Hp & Ha).
+    specialize (il2 p sz Hp). lia.
   - intros P. destruct (i5 P) as (B & lv & S). exists B, lv.
     destruct (live_addr_block _ _ _ _ _ _ S Hin) as (b & Hb & Ha).
     pose proof S as [h1 h2 h3 h4 h5 h6 h7 h8 h9 h10 h11].
@@ -80,7 +82,7 @@ Qed.
 
 Lemma Inv_read s m g a w :
   Inv s m g -> lookup (g_shadow g) a = Some w -> m_data m a = w.
-Proof. intros [i1 _ _ _ _ _] H. now apply i1. Qed.
+Proof. intros [i1 _ _ _ _ _ _ _] H. now apply i1. Qed.
 
 Lemma Inv_pages s m g pages' g' :
   Inv s m g -> m_pages m <= pages' <= m_max m ->
@@ -88,9 +90,11 @@ Lemma Inv_pages s m g pages' g' :
   g_pages g' = pages' ->
   Inv s (mkMem pages' (m_max m) (m_data m)) g'.
 Proof.
-  intros [i1 iw i2 i3 i4 i5] Hp E1 E2 E3 E4 E5. constructor; cbn [m_pages m_max m_data]; auto.
+  intros [i1 iw il1 il2 i2 i3 i4 i5] Hp E1 E2 E3 E4 E5. constructor; cbn [m_pages m_max m_data]; auto.
   - intros x w. rewrite E3. apply i1.
   - intros x w. rewrite E3, E2. apply iw.
+  - intros x. rewrite E2. apply il1.
+  - intros p sz. rewrite E1. apply il2.
   - now rewrite E4.
   - lia.
   - intros P. destruct (i5 P) as (B & lv & S). exists B, lv.
